@@ -29,8 +29,8 @@ func c11Progs() map[string]*Prog {
 		{Name: "c1", Cmds: []C{{Call: &Ref{Task: "t", Vars: [][2]string{{"X", "one"}}}}}},
 		{Name: "c2", Cmds: []C{{Call: &Ref{Task: "t", Vars: [][2]string{{"X", "two"}}}}}},
 		{Name: "c3", Cmds: []C{{Call: &Ref{Task: "t"}}}},
-		{Name: "t", Env: [][2]string{{"EX", "{{.X}}"}}, RawLines: []string{"vars:", "  D: {sh: 'echo hello-{{.X}}'}", "  DE: {sh: 'echo env-$X'}", "  L: 'lit-{{.X}}'"},
-			Cmds: []C{{Defer: true, Extra: "defer X={{.X}}"}, {Extra: "X={{.X}} D={{.D}} DE={{.DE}} L={{.L}}", ShExtra: " EX=$EX"}, {Call: &Ref{Task: "leaf", Vars: [][2]string{{"Y", "{{.X}}"}}}}}},
+		{Name: "t", Env: [][2]string{{"EX", "{{.X}}"}}, RawLines: []string{"vars:", "  D: {sh: 'echo hello-{{.X}}'}", "  DE: {sh: 'echo env-$X'}", "  IND: {sh: '. ./ind.sh'}", "  L: 'lit-{{.X}}'"},
+			Cmds: []C{{Defer: true, Extra: "defer X={{.X}}"}, {Extra: "X={{.X}} D={{.D}} DE={{.DE}} IND={{.IND}} L={{.L}}", ShExtra: " EX=$EX"}, {Call: &Ref{Task: "leaf", Vars: [][2]string{{"Y", "{{.X}}"}}}}}},
 		{Name: "leaf", Cmds: []C{{Extra: "Y={{.Y}}"}}},
 	}}
 	m["global-dynvar-per-task"] = &Prog{
@@ -68,7 +68,7 @@ func c11Progs() map[string]*Prog {
 }
 
 func c11Scenario(name string, pg *Prog, calls []string) *vlab.Scenario {
-	sc := &vlab.Scenario{Name: name, Files: map[string]string{"Taskfile.yml": pg.YAML(), "d1/.keep": "", "d2/.keep": ""}, Spec: pg}
+	sc := &vlab.Scenario{Name: name, Files: map[string]string{"Taskfile.yml": pg.YAML(), "d1/.keep": "", "d2/.keep": "", "ind.sh": "echo ind-$X\n"}, Spec: pg}
 	for i, c := range calls {
 		sc.Calls = append(sc.Calls, vlab.CallSpec{Task: c, Vars: [][2]string{{"VP", fmt.Sprintf("@%d", i+1)}}})
 	}
